@@ -41,6 +41,8 @@ pub fn alphabet(nfail: usize, rich: bool) -> Vec<Act> {
         a.push(msg(vec![f.clone()]));
     }
     a.push(msg1("*OPC", U::Opc));
+    a.push(msg1("*OPC?", U::OpcQ));
+    a.push(msg(vec![unit("*TST?", U::Tst), unit("*OPC?", U::OpcQ), unit("SYST:ERR:COUN?", U::ErrCount)]));
     a.push(msg1("SYST:ERR?", U::ErrNext));
     a.push(msg1("system:error:next?", U::ErrNext));
     a.push(msg1("SYST:ERR:COUN?", U::ErrCount));
@@ -67,7 +69,7 @@ pub fn alphabet(nfail: usize, rich: bool) -> Vec<Act> {
 }
 
 pub fn slices(tier: Tier) -> Vec<Slice> {
-    let nfail = tier.pick(6, 17);
+    let nfail = tier.pick(10, 17);
     let l = tier.pick(2, 3);
     let mut v = vec![
         Slice {
@@ -95,7 +97,7 @@ pub fn slices(tier: Tier) -> Vec<Slice> {
 }
 
 pub fn run(ctx: &'static Ctx) -> i32 {
-    let nfail = ctx.tier.pick(6, 17);
+    let nfail = ctx.tier.pick(10, 17);
     run_slices(
         ctx,
         slices(ctx.tier),
